@@ -105,6 +105,10 @@ def update_param_state_dict_object(
 ) -> None:
     for k, v in current_param_state_dict.items():
         if k not in param_state_dict_to_load:
+            if not flatten(extract_state_dict_content({k: v})):
+                # Nothing under this key is ever saved (flatten drops sub-dictionaries without leaves),
+                # e.g., the Kronecker factors of a block without any preconditioned dimension.
+                continue
             if enable_missing_key_check:
                 raise KeyError(f"Key {k} not found in state dict to load.")
             else:
